@@ -73,6 +73,12 @@ def varInfo (g v : Nat) : Option VarInfo :=
   | 32, 0 => some { all := true, count := some 0 }
   | 32, 1 => some { all := true, count := some 0, prefixed := some 5 }
   | 32, 2 => some { all := true, count := some 0, prefixed := some 3 }
+  | 32, 3 => some { all := true, count := some 0, prefixed := some 11 }
+  | 32, 4 => some { all := true, count := some 0, prefixed := some 9 }
+  | 32, 5 => some { all := true, count := some 0, prefixed := some 5 }
+  | 32, 6 => some { all := true, count := some 0, prefixed := some 9 }
+  | 32, 7 => some { all := true, count := some 0, prefixed := some 11 }
+  | 32, 8 => some { all := true, count := some 0, prefixed := some 15 }
   | 41, 1 => some { prefixed := some 5 }
   | 41, 2 => some { prefixed := some 3 }
   | 41, 3 => some { prefixed := some 5 }
